@@ -407,17 +407,21 @@ func runFamily(c runCfg, pkgs []*scratch.Pkg, lines []string, race bool) (*famRe
 		p := byName[f[1]]
 		switch f[0] {
 		case "S":
-			st := "ok"
+			st := "accept"
+			extra := ""
 			if p == nil {
 				st = "nopkg"
 			} else if p.GenPanic != "" {
-				st = "genpanic:" + dialect.Hx(p.GenPanic)
+				st = "panic"
+				extra = " detail=" + dialect.Hx(p.GenPanic)
 			} else if p.GenErr != "" {
-				st = "generr:" + dialect.Hx(p.GenErr)
+				st = "reject"
+				extra = " detail=" + dialect.Hx(p.GenErr)
 			} else if p.BuildErr != "" {
-				st = "builderr:" + dialect.Hx(p.BuildErr)
+				st = "builderr"
+				extra = " detail=" + dialect.Hx(p.BuildErr)
 			}
-			impl[i] = "SKIP gen=" + st
+			impl[i] = "status=" + st + " trace=-" + extra
 		case "R":
 			if p == nil || !p.OK() {
 				impl[i] = "SKIP pkg-unavailable"
